@@ -64,8 +64,8 @@ def run(m: Model, r: Report, tier: str) -> None:
     for fn, probe_text, idvar in ((ps, "self.ecu.send_raw(", var), (m.require_function(f"{IDS}.ScanIdentifiers.perform_scan"), "self.ecu.send_raw(", "DID")):
         g = CFG(fn.node)
         probes = {n.id for n in g.nodes.values() if n.ast is not None and n.kind == "stmt" and probe_text in ast.unparse(n.ast)}
-        skips = [n for n in g.nodes.values() if n.kind == "cond" and n.ast is not None and "session in self.config.skip" in ast.unparse(n.ast)
-                 and f"{idvar} in session_skip" in ast.unparse(n.ast) and "is None" in ast.unparse(n.ast)]
+        want_skip = f"sessioninself.config.skipand((session_skip:=self.config.skip[session])isNoneor{idvar}insession_skip)"
+        skips = [n for n in g.nodes.values() if n.kind == "cond" and n.ast is not None and ast.unparse(n.ast).replace(" ", "") == want_skip]
         if not probes:
             raise AnalysisError(f"{fn.qualname}: probe call not found")
         ok = bool(skips)
@@ -112,6 +112,11 @@ def run(m: Model, r: Report, tier: str) -> None:
     rec = [s for s in tail if isinstance(s, ast.Assign) and ast.unparse(s.targets[0]) == f"result[{var}]" and ast.unparse(s.value) == "resp"]
     r.check(len(rec) == 1 and isinstance(LL.body[-1], ast.Break) and len(ifs) == 2, "R4", f"{ps.qualname}#record-otherwise",
             "a service must be recorded (and probing stopped) exactly when the reply is neither not-supported nor a length error", loc=ps.loc)
+    r.check(all(isinstance(i.test, ast.BoolOp) and isinstance(i.test.op, ast.And) and ast.unparse(i.test.values[0]) == "isinstance(resp, NegativeResponse)"
+                and isinstance(i.test.values[1], ast.Compare) and isinstance(i.test.values[1].ops[0], ast.In) for i in ns + le) and len(ns + le) == 2, "R4",
+            f"{ps.qualname}#classification-atoms", "both classifications must be `isinstance(resp, NegativeResponse) and resp.response_code in [...]`", loc=ps.loc)
+    outer_breaks = [n for n in ast.walk(W) if isinstance(n, ast.Break) and not any(n is x for x in ast.walk(LL))]
+    r.check(not outer_breaks, "R1", f"{ps.qualname}#no-early-end", "the service id loop must not be left early (a break would skip all remaining ids)", loc=ps.loc)
     breaks = [n for n in ast.walk(LL) if isinstance(n, ast.Break)]
     r.check(len(breaks) == 2, "R3", f"{ps.qualname}#only-decisive-breaks", f"{len(breaks)} break statements in the length loop; only 'not supported' and 'found' end probing", loc=ps.loc)
 
@@ -137,7 +142,7 @@ def run(m: Model, r: Report, tier: str) -> None:
     keyed = [n for n in ast.walk(F) if isinstance(n, ast.Assign) and f"found[{sv}]" in ast.unparse(n.targets[0]) and f"self.perform_scan({sv})" in ast.unparse(n.value)]
     r.check(len(keyed) == 1, "R5", f"{main.qualname}#findings-keyed-by-session", "findings must be stored under the session they were scanned in", loc=main.loc)
     chk = [n for n in W.body if isinstance(n, ast.If) and "self.config.check_session" in ast.unparse(n.test)]
-    okc = len(chk) == 1 and "self.ecu.check_and_set_session(session)" in ast.unparse(chk[0]) and "return (result, False)" in ast.unparse(chk[0]) and \
+    okc = len(chk) == 1 and ast.unparse(chk[0].test) == "session is not None and self.config.check_session" and "self.ecu.check_and_set_session(session)" in ast.unparse(chk[0]) and "return (result, False)" in ast.unparse(chk[0]) and \
         chk[0].lineno < LL.lineno
     r.check(okc, "R5", f"{ps.qualname}#check-session-before-probe", "with check_session the session must be verified before the probes of each service id", loc=ps.loc)
     sess_filter = [n for n in ast.walk(main.node) if isinstance(n, ast.ListComp) and "self.config.sessions" in ast.unparse(n)]
@@ -167,6 +172,16 @@ def run(m: Model, r: Report, tier: str) -> None:
     r.check("bytes([self.config.service,DID>>8,DID&255])" in vals, "R7", f"{pi.qualname}#pdu-did", f"PDU forms: {vals}", loc=pi.loc)
     rc = [n for n in walk_no_nested(pi.node) if isinstance(n, ast.Assign) and ast.unparse(n.targets[0]) == "sub_functions" and "RoutineControlSubFuncs" in ast.unparse(n.value)]
     r.check(len(rc) == 1, "R7", f"{pi.qualname}#routine-sub-functions", "RoutineControl must be scanned for every RoutineControlSubFuncs member", loc=pi.loc)
+    ibreaks = [n for n in ast.walk(loops[0]) if isinstance(n, ast.Break)] if loops else []
+    okbr = all(any(isinstance(a, ast.If) and ast.unparse(a.test) == "self.config.skip_not_supported" and n in a.body for a in ast.walk(loops[0])) for n in ibreaks)
+    r.check(okbr and len(ibreaks) <= 1, "R6", f"{pi.qualname}#no-early-end", "the identifier loop may only be left early under --skip-not-supported", loc=pi.loc)
+    svc_tests = [ast.unparse(n.test).replace(" ", "") for n in ast.walk(pi.node) if isinstance(n, ast.If) and "self.config.service" in ast.unparse(n.test)]
+    r.check(sorted(svc_tests) == sorted(["self.config.service==UDSIsoServices.RoutineControl", "self.config.service==UDSIsoServices.SecurityAccessandself.config.end>127",
+                                         "self.config.service==UDSIsoServices.SecurityAccess", "self.config.service==UDSIsoServices.RoutineControl"]), "R7",
+            f"{pi.qualname}#service-dispatch", f"service tests {svc_tests}", loc=pi.loc)
+    chk_i = [ast.unparse(n.test).replace(" ", "") for n in ast.walk(pi.node) if isinstance(n, ast.If) and "self.config.check_session" in ast.unparse(n.test)]
+    r.check(chk_i == ["sessionisnotNoneandself.config.check_sessionand(DID%self.config.check_session==0)"], "R5", f"{pi.qualname}#check-session",
+            f"check-session test {chk_i}", loc=pi.loc)
     inc = [n for n in ast.walk(pi.node) if isinstance(n, ast.AugAssign) and ast.unparse(n.target) == "positive_DIDs"]
     okp = False
     if len(inc) == 1:
